@@ -509,20 +509,19 @@ func (g *gen) flagDiscipline(fn *ast.FuncDecl, flagName string) {
 
 // requireResultErr: the identifier err inside the deferred function at d denotes the
 // function's named result `err error`.
-func (g *gen) requireResultErr(fn *ast.FuncDecl, d *ast.DeferStmt) {
+func (g *gen) requireResultErr(fn *ast.FuncDecl, d *ast.DeferStmt) string {
 	name := fn.Name.Name
 	if !hasNamedErrResult(fn) {
 		fail(name, "the deferred decision at %s reads `err` but the function has no named result `err error`", g.at(d))
 	}
 	if sh := shadowedAt(fn, d, "err"); sh != nil {
-		msg := fmt.Sprintf("the deferred function at %s reads/assigns `err`, but that is the local `err` declared at %s (`%s`), which shadows the named result: the commit decision is NOT keyed on the function's error result",
-			g.at(d), g.at(sh), firstLine(exprString(g.fset, sh)))
-		if g.shadowAsDErr {
-			fmt.Fprintf(os.Stderr, "genc01: WARNING: %s: %s; emitting DErr because -shadowed-err-as-derr is set\n", name, msg)
-			return
-		}
-		fail(name, "%s", msg)
+		// the deferred function reads a local err that shadows the named result and is nil whenever
+		// the defer was registered: the decision always takes the commit branch (DShadowedErr)
+		fmt.Fprintf(os.Stderr, "genc01: note: %s: the deferred function at %s reads/assigns the local `err` declared at %s (`%s`), which shadows the named result: DShadowedErr\n",
+			name, g.at(d), g.at(sh), firstLine(exprString(g.fset, sh)))
+		return "DShadowedErr"
 	}
+	return "DErr"
 }
 
 func firstLine(s string) string {
@@ -622,8 +621,7 @@ func (g *gen) classifyDirect(fn *ast.FuncDecl) *class {
 		return &class{"HStaged", "DFlag", ""}
 	}
 	if errNotNil(ifs.Cond) {
-		g.requireResultErr(fn, d)
-		return &class{"HStaged", "DErr", ""}
+		return &class{"HStaged", g.requireResultErr(fn, d), ""}
 	}
 	fail(name, "deferred function at %s: condition `%s` is neither `!<flag>` nor `err != nil`", g.at(d), exprString(g.fset, ifs.Cond))
 	return nil
@@ -863,8 +861,7 @@ func (g *gen) classifyCut() row {
 		return row{"api", name, "HCut", "DFlag", ""}
 	}
 	if errNotNil(guard.Cond) {
-		g.requireResultErr(fn, d)
-		return row{"api", name, "HCut", "DErr", ""}
+		return row{"api", name, "HCut", g.requireResultErr(fn, d), ""}
 	}
 	fail(name, "deferred function at %s: condition `%s` is neither `!<flag>` nor `err != nil`", g.at(d), exprString(g.fset, guard.Cond))
 	return row{}
@@ -1059,8 +1056,7 @@ func (g *gen) classifyFinish(fn *ast.FuncDecl) string {
 			fail(name, "deferred function at %s: argument %d of %s (its error parameter) is `%s`, not the identifier err",
 				g.at(d), eidx+1, identCall(c), exprString(g.fset, c.Args[eidx]))
 		}
-		g.requireResultErr(fn, d)
-		return "DErr"
+		return g.requireResultErr(fn, d)
 	}
 
 	if len(stmts) >= 2 {
